@@ -27,7 +27,7 @@ NONE == 99
 \* C34: the byte limit is a property of files on disk, the character limit of any text given to a templater
 Over(f, e) == \/ e.kind = "path" /\ T.byte_limit > 0 /\ f.nbytes > T.byte_limit
               \/ T.char_limit > 0 /\ f.nchars > T.char_limit
-RunAt(e) == [cmd |-> T.cmd, feu |-> T.feu, nofail |-> T.nofail, skipfail |-> T.skipfail, limkind |-> "observed",
+RunAt(e) == [usage |-> T.usage, cmd |-> T.cmd, feu |-> T.feu, nofail |-> T.nofail, skipfail |-> T.skipfail, limkind |-> "observed",
              files |-> [i \in 1..Len(T.files) |->
                           [V |-> ToSet(T.files[i].V), skipped |-> Over(T.files[i], e),
                            limit |-> i \in ToSet(e.limit), notree |-> T.files[i].notree]]]
@@ -43,7 +43,9 @@ C18Clause(e) ==
 C22Clause(e) ==
    LET R == RunAt(e)
        M == ToSet(e.modified)
-   IN IF SkippedCount(R) > 0 THEN "ok"          \* runs with an oversized file are judged by C34's clauses
+   IN IF R.usage # "none" THEN (IF e.exit # NONE /\ e.exit \notin ExitSet(R) THEN "C22.ExitUsage"
+                                ELSE IF M # {} THEN "C22.UsageErrorModified" ELSE "ok")
+      ELSE IF SkippedCount(R) > 0 THEN "ok"          \* runs with an oversized file are judged by C34's clauses
       ELSE IF e.exit # NONE /\ e.exit \notin ExitSet(R) THEN (IF R.cmd = "lint" THEN "C22.ExitLint" ELSE "C22.ExitFix")
       ELSE IF \E i \in FI(R) : MustModify(R, R.files[i]) /\ i \notin M THEN "C22.FixableNotFixed"
       ELSE IF R.cmd = "lint" /\ M # {} THEN "C22.LintModified"
@@ -57,7 +59,8 @@ C34Clause(e) ==
       ELSE IF e.touched_known /\ S \cap ToSet(e.touched) # {} THEN "C34.SkippedParsed"
       ELSE IF e.touched_known /\ \E i \in FI(R) \ S : ~R.files[i].notree /\ i \notin ToSet(e.touched) THEN "C34.UndersizedNotProcessed"
       ELSE IF e.skipped # NONE /\ e.skipped # SkippedCount(R) THEN "C34.SkippedCounted"
-      ELSE IF e.exit # NONE /\ (S # {} \/ T.byte_limit > 0 \/ T.char_limit > 0) /\ e.exit \notin ExitSet(R) THEN "C34.ExitOnlyWithSkipFail"
+      \* the exit status of a run in which nothing is oversized is C22's business
+      ELSE IF e.exit # NONE /\ S # {} /\ e.exit \notin ExitSet(R) THEN "C34.ExitOnlyWithSkipFail"
       ELSE "ok"
 
 \* C19: every observation against the first one of the trace (the CLI path run)
